@@ -27,6 +27,10 @@ class SyncProducer:
         :param period:
             Period of SYNC message in seconds.
         """
+        # Stop an already running transmission first, otherwise the reference
+        # is overwritten and the old task keeps transmitting forever
+        self.stop()
+
         if period is not None:
             self.period = period
 
